@@ -4,6 +4,7 @@ run from /repo's working tree; each theorem here is one obligation.
 -/
 import ThriftVerif.Facts.GenBreak
 import ThriftVerif.Break.Model
+import ThriftVerif.Break.Text -- not used here: makes `bin/check` build everything Driver/BreakMain.lean imports
 
 namespace ThriftVerif.Facts.ExpectBreak
 open ThriftVerif.Break ThriftVerif.Facts
